@@ -34,6 +34,24 @@ claim("C19", "other",
       "AST->exact rationals->z3 (QF_LRA/NRA) + symbolic execution of the real coefficient routine",
       "DESIGN.md section 1, C19")
 
+claim("C20", "other",
+      "Symbolic execution of the real bipartite_vertex_cover on graphs whose adjacency bits are solver variables (all graphs up to 3x3 in quick; up to 12-16 bits "
+      "in thorough); for Hopcroft-Karp SciPy's matching is a contract stub returning every maximum matching, so Koenig's construction is checked for every "
+      "maximum matching. Obligations per path: edge cover, |cover| = maximum matching (independent oracle), no internal assertion reachable.",
+      "Trusts z3, the SYMNUM explorer and the harness' exhaustive matching oracle; SciPy's matching is trusted to return *a* maximum matching. Edgeless graphs "
+      "are outside the Hopcroft-Karp domain (the code raises).",
+      "symbolic execution (SYMNUM path explorer, z3 feasibility) with a contract stub for the SciPy matching",
+      "DESIGN.md section 1, C20")
+
+claim("C03", "other",
+      "Bounded symbolic check of every arithmetic method on chains of 2-3 (thorough 4) sites: tensor entries and prefactors are solver variables, structures "
+      "(bond dims, label patterns, centre position of each operand) are enumerated; obligations are dense identities, the label invariant on the result, the "
+      "sector shift and unchanged inputs. Counterexamples are replayed on the float build before being reported.",
+      "Real arithmetic instead of float64; sizes beyond the bounds are outside the claim; operation sequences are covered through the inductive label "
+      "invariant (C04 takes it as precondition), not executed as sequences.",
+      "symbolic execution of the real NumPy code on z3-valued object arrays + polynomial normal form + z3 (QF_NRA)",
+      "DESIGN.md section 1, C03")
+
 for pid in ["C%02d" % i for i in range(1, 21)]:
     if pid not in CHECKS:
         NA[pid] = "check not built yet (build in progress; see DESIGN.md)"
